@@ -11,13 +11,24 @@ func Gen(t *rapid.T) *Case {
 		cy := Cycle{End: rapid.SampledFrom([]string{"kill", "kill", "kill", "close"}).Draw(t, "end")}
 		n := rapid.IntRange(1, 12).Draw(t, "nops")
 		for j := 0; j < n; j++ {
-			if rapid.IntRange(0, 3).Draw(t, "kind") == 0 {
+			kind := rapid.IntRange(0, 7).Draw(t, "kind")
+			if kind <= 1 {
 				cy.Ops = append(cy.Ops, Op{K: "save", Sub: rapid.SampledFrom([]string{"A", "B", "sub-3"}).Draw(t, "sub")})
+			} else if kind == 2 {
+				// a failing save (cancelled context) followed by a retry with the same offset
+				sub := rapid.SampledFrom([]string{"A", "B", "sub-3"}).Draw(t, "sub")
+				cy.Ops = append(cy.Ops, Op{K: "savec", Sub: sub})
+				if rapid.Bool().Draw(t, "retry") {
+					cy.Ops = append(cy.Ops, Op{K: "save", Sub: sub})
+					j++
+				}
+			} else if kind == 3 {
+				cy.Ops = append(cy.Ops, Op{K: "appendc"})
 			} else {
 				cy.Ops = append(cy.Ops, Op{K: "append", Size: rapid.SampledFrom([]int{0, 10, 100, 5000, 70000}).Draw(t, "size")})
 			}
 		}
-		cy.At = rapid.IntRange(0, n).Draw(t, "at")
+		cy.At = rapid.IntRange(0, len(cy.Ops)).Draw(t, "at")
 		if cy.End == "kill" {
 			cy.DelayUs = rapid.SampledFrom([]int{0, 0, 50, 200, 800}).Draw(t, "delay")
 		}
